@@ -34,8 +34,9 @@ def encoder(rs, prot, unk):
     key = (rs, prot, unk)
     if key not in _ENC:
         from pylatexenc.latexencode import UnicodeToLatexEncoder
+        # unknown_char_warning keeps its default (True): the property is about the encoder as shipped
         _ENC[key] = UnicodeToLatexEncoder(conversion_rules=[rs], replacement_latex_protection=prot,
-                                          unknown_char_policy=unk, unknown_char_warning=False)
+                                          unknown_char_policy=unk)
     return _ENC[key]
 
 
